@@ -85,7 +85,7 @@ def rule_shared_table_scope(chk, fb):
     r = chk.rule(
         "C03.b.table",
         "the shared-formula table spans the sheet: the table handed to the row reader is created once, outside the loop over the rows (in the function that contains that loop, or further up the call chain when it is passed down as a parameter)",
-        floor=2,
+        floor=1,
     )
     tgt = [d for d, b in fb.mir.items() if b.get("self_ty", "").endswith("::Row") and d.split("::")[-1] == "set_attributes"]
 
